@@ -59,6 +59,8 @@ def jobs(tier, seed):
             out.append({'name': 'circle-kernel-on-the-circle-t%d' % i, 'kind': 'circle-fixed', 'radius': r, 'cellsize': [cx, cy]})
         out.append({'name': 'great-circle-symmetry-antipodal', 'kind': 'gc', 'region': 'antipodal'})
         out.append({'name': 'great-circle-symmetry-equator', 'kind': 'gc', 'region': 'equator'})
+    # exactly antipodal pairs with generic (non-integer) coordinates: concrete sweep, the distance must be half the circumference and never NaN
+    out.append({'name': 'great-circle-antipodes-concrete-sweep', 'kind': 'gc-antipodes'})
     out.append({'name': 'unit-table', 'kind': 'units'})
     out.append({'name': 'distance-strings', 'kind': 'strings'})
     out.append({'name': 'calc-cellsize', 'kind': 'cellsize'})
@@ -144,6 +146,15 @@ def body(ctx, job):
             same_meridian = Or(x1 == x2, abs(abs(x1 - x2) - 360) <= 1e-9)
             ctx.check('zero-only-if-coincident', Implies(d12 == 0, And(y1 == y2, Or(same_meridian, pole))),
                       info=lambda m: {'p1': [ctx.ev(m, x1), ctx.ev(m, y1)], 'p2': [ctx.ev(m, x2), ctx.ev(m, y2)], 'd': ctx.ev(m, d12)})
+        return
+    if kind == 'gc-antipodes':
+        import random
+        rnd = random.Random(12345)
+        pts = [(rnd.uniform(-180, 0), rnd.uniform(-89, 89)) for _ in range(150)] + [(-74.13707509466566, 9.929847991185014), (-0.1, 0.1), (-179.9, -45.3)]
+        for (lon, lat) in pts:
+            d = ctx.call('proximity:great_circle_distance', lon, lon + 180.0, lat, -lat)
+            d = sc.as_const(d) if sc.is_sym(d) else float(d)
+            ctx.check('antipodal-distance-is-half-the-circumference', d == d and abs(d - math.pi * R) <= 1e-6 * R, info={'p': [lon, lat], 'd': d})
         return
     if kind == 'gc-range':
         sc.set_axioms()
